@@ -794,6 +794,27 @@ def rule_l(R, ctx, rid="C19.l"):
         for tname in sorted(set(table) - seen):
             R.ob(rid, fn, "tag:" + tname, False, "no struct with tag %s is built" % tname)
     R.floor(rid, "event cell fields checked", n, 10)
+    # text deltas: each kind of op is converted by the constructor of its own kind, from its own payload
+    want = {"insert": "Inserted", "retain": "Retain", "delete": "Deleted"}
+    m = 0
+    for root, css in sorted(callers_of(F_, "yffi::YDeltaOut::insert", "yffi::YDeltaOut::retain", "yffi::YDeltaOut::delete").items()):
+        for cs in css:
+            fn = cs.fn
+            if not re.search(r"YDeltaOut as std::convert::From<&yrs::types::Delta", fn.path):
+                continue
+            v = FnView(fn)
+            kind = cs.name.rsplit("::", 1)[-1]
+            srcs = set()
+            for i in range(len(cs.args)):
+                for x in walk(simp_deep(v.arg(cs, i, 10))):
+                    if isinstance(x, tuple) and x and x[0] == "field":
+                        mm = re.search(r"::Delta::(Inserted|Deleted|Retain)\.\d+$", x[1])
+                        if mm:
+                            srcs.add(mm.group(1))
+            m += 1
+            R.ob(rid, fn, "delta:" + kind, srcs == {want[kind]}, "YDeltaOut::%s from Delta::%s" % (kind, sorted(srcs)) if srcs == {want[kind]} else
+                 "YDeltaOut::%s is fed from Delta::%s — expected %s" % (kind, sorted(srcs), want[kind]), cs.loc())
+    R.floor(rid, "delta op conversions", m, 3)
 
 
 def check(ctx, R):
